@@ -49,7 +49,7 @@ FailOps == {"FailSink", "FailSinkMid", "FailSinkLate"}
 LongVals == {"long", "multiline", "blanks", "utf8", "words5", "words20", "words40"}
 FieldOf(h) ==
   CASE h.setter \in {"genempty", "toignore", "ccignore"} -> [w |-> 0, c |-> IF DEV_CountUnwritten THEN 1 ELSE 0]
-    [] h.setter = "toname" -> [w |-> 0, c |-> 0]             \* joins the To field that exists anyway
+    [] h.setter \in {"toname", "envonly"} -> [w |-> 0, c |-> 0]  \* joins the To field that exists anyway / the From field is written from the envelope-from
     [] h.val \in LongVals -> [w |-> 3, c |-> 3]
     [] OTHER -> [w |-> 1, c |-> 1]
 Fixed == [i \in 1..7 |-> [w |-> 1, c |-> 1]]   \* Date MIME-Version Message-ID Subject User-Agent X-Mailer From/To
